@@ -179,6 +179,7 @@ func distinct(t *rapid.T, alphabet []string, max int, label string) []string {
 type PatchOpts struct {
 	Actions []string // nil = all eight
 	NoJSON  bool
+	NoBulk  bool // never start the list with a bulk patch (8-12 entries)
 }
 
 // ValidPatch draws one patch that passes validation.
@@ -249,6 +250,34 @@ func ValidPatches(t *rapid.T, max int, o PatchOpts) []interface{} {
 	var out []interface{}
 	for i := 0; i < n; i++ {
 		out = append(out, ValidPatch(t, o))
+	}
+	// one list in ten starts with a bulk patch: 8-12 keys or services in one entry list (ids b1.., disjoint from
+	// the small alphabets), so that documents and lists well beyond hand-written sizes occur
+	allowed := func(a string) bool {
+		if o.Actions == nil {
+			return true
+		}
+		for _, x := range o.Actions {
+			if x == a {
+				return true
+			}
+		}
+		return false
+	}
+	if !o.NoBulk && rapid.IntRange(0, 9).Draw(t, "bulkPatch") == 0 {
+		m := rapid.IntRange(8, 12).Draw(t, "bulkEntries")
+		var l []interface{}
+		if rapid.Bool().Draw(t, "bulkServices") && allowed("add-services") {
+			for i := 0; i < m; i++ {
+				l = append(l, DocService(t, fmt.Sprintf("bs%d", i+1)))
+			}
+			out[0] = map[string]interface{}{"action": "add-services", "services": l}
+		} else if allowed("add-public-keys") {
+			for i := 0; i < m; i++ {
+				l = append(l, DocKey(t, fmt.Sprintf("b%d", i+1)))
+			}
+			out[0] = map[string]interface{}{"action": "add-public-keys", "publicKeys": l}
+		}
 	}
 	return out
 }
